@@ -371,7 +371,7 @@ pub const PREIMAGE_TARGET_IDS: &[u32] = &[0, 1, 5, 0x7fff_ffff, 0x8000_0000, 0xf
 pub fn find_collisions() -> Collisions {
     let ident_pairs = short_ident_collisions(3);
     let e1 = 42;
-    let (nonident_pairs, e2) = brute_collisions(b" -.+/!?#abcde012", 1, 5, 3, 1_200_000, &|s| !is_ascii_ident(s));
+    let (nonident_pairs, e2) = brute_collisions(b"!a+ -./?#bcde012", 1, 5, 3, 1_200_000, &|s| !is_ascii_ident(s));
     for (a, b) in ident_pairs.iter().chain(nonident_pairs.iter()) {
         assert!(a != b && h(a) == h(b), "search result is not a collision under the specification hash");
     }
